@@ -20,7 +20,7 @@ fuzz_target!(|data: &[u8]| {
         if let flipdot_verif::props::c12::HOp::Repeat { n, .. } = &op {
             if *n > 1000 {
                 repeats += 1;
-                if repeats > 2 {
+                if repeats > 1 {
                     continue; // keep one execution cheap
                 }
             }
